@@ -7,7 +7,7 @@ M="${MUT_DIR:-/tmp/mut}"
 if [ ! -d $M/repo ]; then mkdir -p $M; git -C /repo worktree prune; git -C /repo worktree add -q --detach $M/repo HEAD || exit 3; cp /repo/Cargo.lock $M/repo/; fi
 git -C $M/repo checkout -q --detach "$(git -C /repo rev-parse HEAD)" && git -C $M/repo checkout -q -- . && git -C $M/repo clean -fdq -e Cargo.lock -e target
 mkdir -p $M/verif
-rsync -a --delete --exclude harness/target --exclude harness/fuzz/target --exclude .git --exclude replays --exclude evidence /verif/ $M/verif/
+rsync -a --delete --exclude harness/target --exclude harness/fuzz/target --exclude .git --exclude replays --exclude evidence ${VERIF_SRC:-/verif}/ $M/verif/
 sed -i "s#path = \"/repo\"#path = \"$M/repo\"#" $M/verif/harness/pbt/Cargo.toml
 git -C $M/repo apply "$P" || { echo "PATCH DID NOT APPLY"; exit 3; }
 cd $M/verif && ./check "$2" "${3:-quick}" 2>&1 | grep -v "^proptest" | tail -4 | cut -c1-500
